@@ -133,8 +133,8 @@ func TestC08History(t *testing.T) {
 					if r.Intn(5) == 0 && len(w.accts) > 2 {
 						rep.Reporter = w.accts[r.Intn(2)].String() // name the other reporter
 					}
-					cat := pick(r, disputetypes.Warning, disputetypes.Minor)
-					pct := map[disputetypes.DisputeCategory]int64{disputetypes.Warning: 100, disputetypes.Minor: 20}[cat]
+					cat := pick(r, disputetypes.Warning, disputetypes.Minor, disputetypes.Major)
+					pct := map[disputetypes.DisputeCategory]int64{disputetypes.Warning: 100, disputetypes.Minor: 20, disputetypes.Major: 1}[cat]
 					fee := bquo(bmul(bi(int64(rep.Power)), bi(loyaPerTRB)), bi(pct))
 					if r.Intn(3) == 0 {
 						fee = bquo(fee, bi(2))
